@@ -7,8 +7,11 @@
         orthogonal to evec2; a = 0 only if C has rank <= 1;
    (p3) wilkinson_shape: rm2xx, rm2yy, rm2xy^2 are the entries of D restricted to span(k, a) in the orthonormal basis, and eval0, eval1
         are the two roots of its characteristic polynomial (sum and product), eval0 = rm2yy when the off-diagonal vanishes;
-   (p4) vectors_shape: evec0 = fac1 a - fac2 k with the two null-vector relations and (fac1, fac2) <> 0 in every branch (including
-        the `both_zero` override), evec1 = evec2 x evec0;
+   (p4) vectors_shape: evec0 = fac1 a - fac2 k with the two null-vector relations and (fac1, fac2) <> 0 in every branch, evec1 = evec2 x evec0.
+        Since /repo e63b801 the pair is the STORED pair (fac1, fac2) / facmax, facmax = where(max(|fac1|, |fac2|) > 0, max(..), 1) > 0, and the
+        fallback test `both_zero` is made on that stored pair: the proof uses only 0 < facmax (a positive rescaling keeps both null-vector
+        relations), shows that the fallback is unreachable when |rm2xx| < |rm2yy| and that in the other branch (0, 0) forces
+        rm2xx = rm2yy = k_a_rm2xy = 0, where evec0 = a_row2 is a null vector;
    (p5) Plane: orthogonal-basis algebra (trace, second invariant via the adjugate, expansion of D k and D a);
    (t)  compose_exact: for a traceless symmetric D and a SIMPLE root lam of its characteristic polynomial x^3 + c2 x + c3, the values
         eval0, eval1 are the other two roots (Vieta, as a polynomial identity), evec2 / evec0 / evec1 are nonzero, mutually orthogonal
@@ -300,30 +303,51 @@ Proof.
   assert (H2 : kaxy * kaxy * ki = xy2 * aa).
   { rewrite Hka2. transitivity (xy2 * aa * (ki * kk)); [ring|]. rewrite Hiki. ring. }
   clear Hki Hai Exy.
-  destruct (Reqb ((xx - e0) * (xx - e0)) 0) eqn:Z1; [apply Reqb_true in Z1|apply Reqb_false in Z1];
-  (destruct (Reqb xy2 0) eqn:Z2; [apply Reqb_true in Z2|apply Reqb_false in Z2]); cbn [andb].
-  1: { (* both zero: the double in-plane eigenvalue, evec0 = a *)
-       exists 1, 0. assert (e0 = yy) by auto. assert (kaxy = 0) by nra.
-       split; [apply t3; ring|]. split; [apply t3; ring|]. split; [nra|]. split; [nra|]. left; lra. }
-  all: match goal with |- context [Rltb ?x ?y] => destruct (Rltb x y) eqn:Hc; [apply Rltb_true in Hc|apply Rltb_false in Hc] end.
-  all: try (exfalso; nra).
-  - (* |xx - e0| < |yy - e0| *)
-    exists (kaxy * ai), (yy - e0). split; [apply t3; ring|]. split; [apply t3; ring|]. split; [|split].
-    + transitivity (kaxy * kaxy * ai); [ring|]. rewrite H1, <- Hsing. ring.
-    + transitivity (kaxy * (ai * aa) * (yy - e0)); [ring|]. rewrite Hiai. ring.
-    + right. intro E. pose proof (Rle_0_sqr (xx - e0)) as S0. unfold Rsqr in S0. rewrite E in Hc. lra.
-  - exists (xx - e0), (ki * kaxy). split; [apply t3; ring|]. split; [apply t3; ring|]. split; [|split].
-    + transitivity (ki * kk * kaxy * (xx - e0)); [rewrite Hiki; ring|ring].
-    + transitivity (kaxy * kaxy * ki); [|ring]. rewrite H2, <- Hsing. ring.
-    + left. intro E. apply Z1. rewrite E. ring.
-  - exists (kaxy * ai), (yy - e0). split; [apply t3; ring|]. split; [apply t3; ring|]. split; [|split].
-    + transitivity (kaxy * kaxy * ai); [ring|]. rewrite H1, <- Hsing. ring.
-    + transitivity (kaxy * (ai * aa) * (yy - e0)); [ring|]. rewrite Hiai. ring.
-    + right. intro E. pose proof (Rle_0_sqr (xx - e0)) as S0. unfold Rsqr in S0. rewrite E in Hc. lra.
-  - exists (xx - e0), (ki * kaxy). split; [apply t3; ring|]. split; [apply t3; ring|]. split; [|split].
-    + transitivity (ki * kk * kaxy * (xx - e0)); [rewrite Hiki; ring|ring].
-    + transitivity (kaxy * kaxy * ki); [|ring]. rewrite H2, <- Hsing. ring.
-    + left. intro E. apply Z1. rewrite E. ring.
+  (* the selection rm2xx2 < rm2yy2 of the pair (fac1, fac2) *)
+  destruct (Rltb ((xx - e0) * (xx - e0)) ((yy - e0) * (yy - e0))) eqn:Hc; [apply Rltb_true in Hc|apply Rltb_false in Hc].
+  (* facmax = where(max(|fac1|, |fac2|) > 0, max(|fac1|, |fac2|), 1) is positive; nothing else about it is used *)
+  all: match goal with |- context [Rltb 0 ?M] => set (m0 := M) end;
+       set (m := if Rltb 0 m0 then m0 else 1);
+       assert (Hm : 0 < m) by (unfold m; destruct (Rltb 0 m0) eqn:Hq; [apply Rltb_true in Hq; exact Hq | lra]);
+       clearbody m; clear m0.
+  (* the stored, scaled pair tested by both_zero *)
+  all: match goal with |- context [andb (Reqb ?A 0) (Reqb ?B 0)] => set (g1 := A); set (g2 := B) end.
+  { (* |xx - e0| < |yy - e0| : fac2 = yy - e0 <> 0, the fallback is not taken *)
+    assert (G1 : g1 * m = kaxy * ai) by (unfold g1; field; lra).
+    assert (G2 : g2 * m = yy - e0) by (unfold g2; field; lra).
+    assert (N2 : g2 <> 0).
+    { intro E. rewrite E in G2. assert (Y : yy - e0 = 0) by lra. rewrite Y in Hc.
+      pose proof (Rle_0_sqr (xx - e0)) as S0. unfold Rsqr in S0. lra. }
+    clearbody g1 g2.
+    destruct (Reqb g1 0) eqn:Z1; (destruct (Reqb g2 0) eqn:Z2; [apply Reqb_true in Z2; contradiction|]); cbn [andb].
+    all: exists g1, g2.
+    all: split; [apply t3; ring|]; (split; [apply t3; ring|]); (split; [|split; [|right; exact N2]]).
+    all: apply Rmult_eq_reg_r with m; [|lra].
+    1,3: transitivity (g1 * m * kaxy); [ring|]; transitivity (g2 * m * kk * (xx - e0)); [|ring]; rewrite G1, G2;
+         transitivity (kaxy * kaxy * ai); [ring|]; rewrite H1, <- Hsing; ring.
+    all: transitivity (g1 * m * aa * (yy - e0)); [ring|]; transitivity (g2 * m * kaxy); [|ring]; rewrite G1, G2;
+         transitivity (kaxy * (ai * aa) * (yy - e0)); [ring|]; rewrite Hiai; ring.
+  }
+  { (* |yy - e0| <= |xx - e0| : fac1 = xx - e0, fac2 = ki kaxy *)
+    assert (G1 : g1 * m = xx - e0) by (unfold g1; field; lra).
+    assert (G2 : g2 * m = ki * kaxy) by (unfold g2; field; lra).
+    clearbody g1 g2.
+    destruct (Reqb g1 0) eqn:Z1; [apply Reqb_true in Z1|apply Reqb_false in Z1];
+    (destruct (Reqb g2 0) eqn:Z2; [apply Reqb_true in Z2|apply Reqb_false in Z2]); cbn [andb].
+    1: { (* the stored pair is (0, 0): xx = yy = e0 and the off-diagonal vanishes (double in-plane eigenvalue), evec0 = a *)
+         exists 1, 0. rewrite Z1 in G1. rewrite Z2 in G2.
+         assert (X0 : xx - e0 = 0) by lra.
+         assert (K0 : kaxy = 0). { transitivity (ki * kaxy * kk); [transitivity (ki * kk * kaxy); [rewrite Hiki; ring|ring]|]. rewrite <- G2. ring. }
+         assert (Y0 : yy - e0 = 0). { rewrite X0 in Hc. pose proof (Rle_0_sqr (yy - e0)) as S0. unfold Rsqr in S0. nra. }
+         split; [apply t3; ring|]. split; [apply t3; ring|]. split; [rewrite K0, X0; ring|]. split; [rewrite K0, Y0; ring|]. left; lra. }
+    all: exists g1, g2.
+    all: split; [apply t3; ring|]; (split; [apply t3; ring|]); (split; [|split; [|tauto]]).
+    all: apply Rmult_eq_reg_r with m; [|lra].
+    1,3,5: transitivity (g1 * m * kaxy); [ring|]; transitivity (g2 * m * kk * (xx - e0)); [|ring]; rewrite G1, G2;
+           transitivity (ki * kk * kaxy * (xx - e0)); [rewrite Hiki; ring|ring].
+    all: transitivity (g1 * m * aa * (yy - e0)); [ring|]; transitivity (g2 * m * kaxy); [|ring]; rewrite G1, G2;
+         transitivity (kaxy * kaxy * ki); [|ring]; rewrite H2, <- Hsing; ring.
+  }
 Qed.
 
 (* ---------- assembly: from a pivoted triple of rows to the exact deflation ---------- *)
